@@ -1,7 +1,7 @@
 /-
-Tie 2 (facts): the set of numeric literals and the multiset of comparison/boolean operators of the Go functions below, REGENERATED from /repo on
+Tie 2 (facts): the set of numeric literals of the Go functions below, REGENERATED from /repo on
 every run (Gen/Facts.lean), are the ones the hand-written model was written against (C01 C02 C09 C15: NewPoint's domain tests, the index formulas and the vertex formulas).
-A changed constant, a flipped or dropped comparison in one of these functions breaks the `decide` below even where no sampled
+A changed constant in one of these functions breaks the `decide` below even where no sampled
 input shows it; renaming and reordering of statements do not.
 -/
 import SpatialId.Gen.Facts
@@ -9,25 +9,25 @@ import SpatialId.Model.Point
 namespace SpatialId.FactsPoint
 open SpatialId
 
-/-- literals and comparisons of `object.(*Point).SetLon` -/
+/-- numeric literals of `object.(*Point).SetLon` -/
 theorem facts_object_Point_SetLon :
-    Gen.funcFacts.lookup "object.(*Point).SetLon" = some ["i:180", "op:>"] := by decide
+    Gen.funcFacts.lookup "object.(*Point).SetLon" = some ["i:180"] := by decide
 
-/-- literals and comparisons of `object.(*Point).SetLat` -/
+/-- numeric literals of `object.(*Point).SetLat` -/
 theorem facts_object_Point_SetLat :
-    Gen.funcFacts.lookup "object.(*Point).SetLat" = some ["f:4635685358059997190", "i:0", "i:10", "op:>", "op:>"] := by decide
+    Gen.funcFacts.lookup "object.(*Point).SetLat" = some ["f:4635685358059997190", "i:0", "i:10"] := by decide
 
-/-- literals and comparisons of `shape.getHorizontalTileIdOnPoint` -/
+/-- numeric literals of `shape.getHorizontalTileIdOnPoint` -/
 theorem facts_shape_getHorizontalTileIdOnPoint :
-    Gen.funcFacts.lookup "shape.getHorizontalTileIdOnPoint" = some ["i:1", "i:180", "i:2", "i:360", "op:==", "op:>="] := by decide
+    Gen.funcFacts.lookup "shape.getHorizontalTileIdOnPoint" = some ["i:1", "i:180", "i:2", "i:360"] := by decide
 
-/-- literals and comparisons of `shape.getVerticalTileIdOnAltitude` -/
+/-- numeric literals of `shape.getVerticalTileIdOnAltitude` -/
 theorem facts_shape_getVerticalTileIdOnAltitude :
     Gen.funcFacts.lookup "shape.getVerticalTileIdOnAltitude" = some ["i:2", "i:25"] := by decide
 
-/-- literals and comparisons of `shape.getVertexOnVoxelOffset` -/
+/-- numeric literals of `shape.getVertexOnVoxelOffset` -/
 theorem facts_shape_getVertexOnVoxelOffset :
-    Gen.funcFacts.lookup "shape.getVertexOnVoxelOffset" = some ["i:0", "i:1", "i:180", "i:2", "i:360", "i:8", "op:<", "op:<", "op:<", "op:<=", "op:<=", "op:||"] := by decide
+    Gen.funcFacts.lookup "shape.getVertexOnVoxelOffset" = some ["i:0", "i:1", "i:180", "i:2", "i:360", "i:8"] := by decide
 
 /-- the latitude limit literal of SetLat is the binary64 value the model uses -/
 theorem lat_limit : F64.toBits SpatialId.latLimit = 4635685358059997190 := by decide +kernel
